@@ -115,3 +115,47 @@ func makeDecId(node syntax.NamedNode) decId {
 		Line: node.Line(),
 	}
 }
+
+// bindExplicitly returns the binding with the given name in an uncompiled
+// set of bindings.
+//
+// Edits are computed on a compiled AST, where a wildcard binding (`* = self`,
+// `* = CALL`) has been expanded into one binding per parameter, but applied
+// to an uncompiled one, where only the wildcard exists.  If the binding is
+// supplied by a wildcard, an explicit binding with the given name and
+// expression is inserted before it; the wildcard keeps supplying the rest.
+//
+// Returns nil, false if there is neither a binding of that name nor a wildcard,
+// and true if a binding was inserted.
+func bindExplicitly(bindings *syntax.BindStms,
+	oldName, newName string, exp syntax.Exp) (*syntax.BindStm, bool) {
+	if bindings == nil {
+		return nil, false
+	}
+	for _, b := range bindings.List {
+		if b.Id == oldName {
+			return b, false
+		}
+	}
+	if exp == nil {
+		return nil, false
+	}
+	for i, b := range bindings.List {
+		if b.Id == "*" {
+			nb := &syntax.BindStm{
+				Node: syntax.NewAstNode(b.Node.Loc),
+				Id:   newName,
+				Exp:  exp,
+			}
+			list := make([]*syntax.BindStm, 0, len(bindings.List)+1)
+			list = append(list, bindings.List[:i]...)
+			list = append(list, nb)
+			bindings.List = append(list, bindings.List[i:]...)
+			if bindings.Table != nil {
+				bindings.Table[newName] = nb
+			}
+			return nb, true
+		}
+	}
+	return nil, false
+}
